@@ -181,6 +181,11 @@ def tol_lookup(ctx, n, lkind, qkind, form, via, m=0, prime=False):
         for i in range(1, n):
             if ds[i] < ds[mi]:
                 mi = i
+        if tol is not None and not (lkind == 'i' and qkind == 'i'):
+            # a nearest label lying EXACTLY at the tolerance is decided by floating-point rounding of the distance (outside
+            # the claim: reals are exact here), unless the distance is 0.  With integer labels and integer queries the distance is
+            # exact and the boundary stays in the claim (it is inclusive).
+            ctx.assume(ctx.OR(ctx.NOT(ds[mi] == tol), ds[mi] == 0))
         if tol is not None and ds[mi] > tol:
             cands.append(None)
         else:
